@@ -27,6 +27,9 @@ struct St {
     m_global: bool,
     m_loaded: bool,
     m_v: i64,
+    /// the module whose body throws was imported (and failed) since the last reset: what a further import
+    /// of it yields is not defined by the property (X) - only that it does not panic
+    thrower_failed: bool,
 }
 
 fn initial() -> St {
@@ -69,6 +72,9 @@ const SNIPPETS: &[(&str, &str)] = &[
     ("probe_every_built_in_name", CENSUS),
     ("import_m", "import \"m\";\nprint(m.v);\n"),
     ("bump_m", "m.v = m.v + 1;\nprint(m.v);\n"),
+    ("import_uncompilable_module", "import \"badsyn\";\nprint(\"not reached\");\n"),
+    ("import_module_whose_body_throws", "import \"thrower\";\nprint(\"not reached\");\n"),
+    ("probe_failed_imports", "try { print(badsyn); } catch e { print(type(e)); }\ntry { print(thrower); } catch e { print(type(e)); }\ntry { print(before); } catch e { print(type(e)); }\n"),
     ("reset", "\u{0}reset"),
 ];
 
@@ -234,6 +240,17 @@ fn step(s: &St, name: &str) -> (St, Vec<String>, String) {
                 (n, vec![], name_err("m"))
             }
         }
+        // a module that does not compile fails the same way every time it is imported
+        "import_uncompilable_module" => (n, vec![], "Unhandled ImportError: Error compiling module:".into()),
+        "import_module_whose_body_throws" => {
+            if s.thrower_failed {
+                (n, vec![], "*".into())
+            } else {
+                n.thrower_failed = true;
+                (n, vec![], "Unhandled exception: module body".into())
+            }
+        }
+        "probe_failed_imports" => (n, vec!["<class NameError>".to_string(); 3], ok),
         "reset" => (initial(), vec![], ok),
         _ => unreachable!(),
     }
@@ -246,6 +263,8 @@ pub fn run(ctx: &Ctx) -> Report {
     let depth = if thorough { 8 } else { 5 };
     let mut modules = BTreeMap::new();
     modules.insert("m".to_string(), "print(\"load m\");\nvar v = 10;\n".to_string());
+    modules.insert("badsyn".to_string(), "var a = 1;\nvar b = ;\n".to_string());
+    modules.insert("thrower".to_string(), "var before = 1;\nthrow \"module body\";\n".to_string());
 
     let mut seen: HashSet<St> = HashSet::new();
     let mut queue: VecDeque<(St, Vec<&'static str>, Vec<Vec<String>>, Vec<String>)> = VecDeque::new();
@@ -330,7 +349,7 @@ pub fn run(ctx: &Ctx) -> Report {
     expect::fill(
         &mut report,
         &stats,
-        "breadth-first search over histories of snippets fed to one interpreter, with canonical reference state (surviving globals, functions, classes, fiber objects, loaded modules); alphabet of 36 snippets: definitions and uses, a compile error, uncaught throws at top level / two calls deep / inside a fiber / inside try-finally / while a class is half-declared / from a built-in inside a method, clean try/finally, try/catch and class+loop probes, a fiber left suspended inside try/finally and resumed by a later snippet, probes of a fiber that died from an uncaught throw and of a chain of two such fibers (both must be finished), closures that escaped into globals from a call frame / a fiber discarded by an uncaught throw - the throwing one, and a fiber or a main-fiber frame that was waiting for it - and are called later (swept objects quarantined: any touch of freed memory is a violation), assignments to undefined globals that end the snippet (top level, in a call, in a fiber) and a `var` whose initialiser fails, with a probe that none of those names came into being, import and module mutation, a probe of every one of the 30 built-in names, reset. Every transition is replayed as the shortest history reaching its source state plus the snippet, on a fresh real interpreter; each snippet's printed lines and outcome must equal the model's; no snippet may panic. Because that search merges histories by model state, a second family runs every history up to length 3 (4) over the whole alphabet without merging, so that every snippet - in particular every failing one, which leaves the model state unchanged - is followed by every other.",
+        "breadth-first search over histories of snippets fed to one interpreter, with canonical reference state (surviving globals, functions, classes, fiber objects, loaded modules); alphabet of 39 snippets: definitions and uses, a compile error, uncaught throws at top level / two calls deep / inside a fiber / inside try-finally / while a class is half-declared / from a built-in inside a method, clean try/finally, try/catch and class+loop probes, a fiber left suspended inside try/finally and resumed by a later snippet, probes of a fiber that died from an uncaught throw and of a chain of two such fibers (both must be finished), closures that escaped into globals from a call frame / a fiber discarded by an uncaught throw - the throwing one, and a fiber or a main-fiber frame that was waiting for it - and are called later (swept objects quarantined: any touch of freed memory is a violation), assignments to undefined globals that end the snippet (top level, in a call, in a fiber) and a `var` whose initialiser fails, with a probe that none of those names came into being, import and module mutation, imports that fail (a module that does not compile: the same ImportError every time; a module whose body throws: the thrown value the first time and again after a reset - what a further import without a reset yields is outside the property, it only must not panic) with a probe that they bound nothing, a probe of every one of the 30 built-in names, reset. Every transition is replayed as the shortest history reaching its source state plus the snippet, on a fresh real interpreter; each snippet's printed lines and outcome must equal the model's; no snippet may panic. Because that search merges histories by model state, a second family runs every history up to length 3 (4) over the whole alphabet without merging, so that every snippet - in particular every failing one, which leaves the model state unchanged - is followed by every other.",
         json!({"history_length": depth, "snippets": SNIPPETS.len()}),
     );
     report.cov("states", json!(states));
